@@ -12,6 +12,8 @@ import (
 
 	"perkeep.org/pkg/blob"
 	"perkeep.org/pkg/blobserver"
+
+	"verif/simcore"
 )
 
 // Op is one client operation against a blobserver.Storage.
@@ -85,10 +87,12 @@ var OpTimeout = 10 * time.Minute
 // ExecOp performs op on sto. It never panics: a panic escaping a public method
 // is converted into Result.Err wrapping ErrPanic.
 func ExecOp(ctx context.Context, sto blobserver.Storage, pool []*TBlob, op Op) (res Result) {
+	res.Call = simcore.Seq()
 	defer func() {
 		if r := recover(); r != nil {
 			res.Err = fmt.Errorf("%w: %v", ErrPanic, r)
 		}
+		res.Return = simcore.Seq()
 	}()
 	switch op.Kind {
 	case "recv":
